@@ -34,7 +34,7 @@ Ltac between_cases i n :=
   end.
 Ltac solve_between n :=
   let i := fresh "i" in let Hi := fresh "Hi" in
-  intros i Hi; unfold digit_at; between_cases i n.
+  intros i Hi; unfold digit_at, upper_at; between_cases i n.
 
 (* ======================= AT ======================= *)
 Lemma at_term_1 d : 0 <= d <= 9 -> at_term 1 d = d.
@@ -464,4 +464,121 @@ Proof.
   right; right. split; [reflexivity|]. split; [cbn; tauto|]. split; [concrete_between|].
   left. split; [vm_compute; reflexivity|]. split; [vm_compute; reflexivity|].
   cbn. intros [E|[E|[E|[E|[E|[E|[E|[E|[E|[]]]]]]]]]]; discriminate E.
+Qed.
+
+(* ======================= IN ======================= *)
+Lemma char36_value b : is_digit b = true \/ is_upper b = true -> char36 b (in_value b).
+Proof.
+  unfold char36, in_value. intros [H|H].
+  - left. rewrite H. split; [reflexivity | reflexivity].
+  - right. split; [exact H|]. destruct (is_digit b) eqn:D; [revert H D; unfold is_digit, is_upper; lia | lia].
+Qed.
+Lemma char36_fun b v : char36 b v -> v = in_value b /\ (is_digit b = true \/ is_upper b = true).
+Proof.
+  unfold char36, in_value. intros [(H & ->)|(H & ->)].
+  - rewrite H. split; [reflexivity | left; reflexivity].
+  - split; [|right; exact H]. destruct (is_digit b) eqn:D; [revert H D; unfold is_digit, is_upper; lia | lia].
+Qed.
+Lemma in_value_range b : is_digit b = true \/ is_upper b = true -> 0 <= in_value b < 36.
+Proof. unfold in_value, is_digit, is_upper, dv. intros [H|H]; destruct ((48 <=? bZ b) && (bZ b <=? 57)) eqn:D; lia. Qed.
+Lemma in_char_value b : is_digit b = true \/ is_upper b = true -> in_char (in_value b) = b.
+Proof. intros [H|H]; revert H; bytecases b. Qed.
+
+Lemma in_total c : List.length c = 15%nat -> valid_IN c = true -> in_T c mod 36 = 0.
+Proof.
+  intros L V. pose proof (in_lin c L V) as H. unfold K_IN in H.
+  replace (fsum F_IN (digs c) + (in_T c - fsum F_IN (digs c))) with (in_T c) in H by ring. exact H.
+Qed.
+
+Section IN_explicit.
+  Variables c0 c1 c2 c3 c4 c5 c6 c7 c8 c9 c10 c11 c12 c13 c14 : byte.
+  Let c : bytes := [c0; c1; c2; c3; c4; c5; c6; c7; c8; c9; c10; c11; c12; c13; c14].
+  Let v (i : nat) : Z := in_value (nthb i c).
+  Let total : Z :=
+    base36_fold (v 0%nat) + base36_fold (2 * v 1%nat) + base36_fold (v 2%nat) + base36_fold (2 * v 3%nat) +
+    base36_fold (v 4%nat) + base36_fold (2 * v 5%nat) + base36_fold (v 6%nat) + base36_fold (2 * v 7%nat) +
+    base36_fold (v 8%nat) + base36_fold (2 * v 9%nat) + base36_fold (v 10%nat) + base36_fold (2 * v 11%nat) +
+    base36_fold (v 12%nat) + base36_fold (2 * v 13%nat) + v 14%nat.
+
+  Lemma in_T_explicit : in_T c = total.
+  Proof.
+    unfold in_T, total, v, base36_fold, c. cbn [firstn in_sum negb nthb nth]. cbv zeta.
+    rewrite !Z.mul_1_r. rewrite !(Z.mul_comm _ 2). ring.
+  Qed.
+
+  Lemma in_format_explicit :
+    in_format c = true <-> in_shape c.
+  Proof.
+    unfold in_format, in_shape, c. cbn [rep repeat app match_classes]. split.
+    - intro F. split_all F. split; [reflexivity|].
+      split; [solve_between 2%nat|]. split; [solve_between 7%nat|]. split; [solve_between 11%nat|].
+      split; [unfold upper_at; cbn [nthb nth]; assumption|].
+      unfold digit_at, upper_at, dig. cbn [nthb nth].
+      split.
+      { match goal with H : in_range 49 57 c12 || is_upper c12 = true |- _ =>
+          apply orb_prop in H; destruct H as [H|H];
+          [left; revert H; unfold in_range, is_digit, dv; lia | right; exact H] end. }
+      split; [apply bZ_inj; match goal with H : beq c13 90 = true |- _ => apply byte_of_beq in H; rewrite H end; reflexivity|].
+      match goal with H : is_alnum c14 = true |- _ => unfold is_alnum in H; apply orb_prop in H; exact H end.
+    - intros (_ & D01 & U26 & D710 & U11 & H12 & H13 & H14).
+      pose_between D01 0%nat 2%nat. pose_between D710 7%nat 4%nat.
+      pose proof (U26 2%nat ltac:(lia)) as U2; pose proof (U26 3%nat ltac:(lia)) as U3; pose proof (U26 4%nat ltac:(lia)) as U4;
+      pose proof (U26 5%nat ltac:(lia)) as U5; pose proof (U26 6%nat ltac:(lia)) as U6.
+      unfold upper_at, digit_at, dig in *. cbn [nthb nth] in *.
+      assert (E12 : in_range 49 57 c12 || is_upper c12 = true).
+      { destruct H12 as [(H & N)|H]; [|rewrite H; apply orb_true_r].
+        apply orb_true_intro. left. revert H N. unfold in_range, is_digit, dv. lia. }
+      assert (E14 : is_alnum c14 = true) by (unfold is_alnum; apply orb_true_intro; exact H14).
+      subst c13. change (beq "Z" 90) with true.
+      rewrite E12, E14, U2, U3, U4, U5, U6, U11. cbn [andb]. solve_digits.
+  Qed.
+
+  Lemma in_classes : in_shape c -> forall i, (i < 15)%nat -> is_digit (nthb i c) = true \/ is_upper (nthb i c) = true.
+  Proof.
+    intros (_ & D01 & U26 & D710 & U11 & H12 & H13 & H14) i Hi.
+    assert (Cases : (i < 2 \/ 2 <= i < 7 \/ 7 <= i < 11 \/ i = 11 \/ i = 12 \/ i = 13 \/ i = 14)%nat) by lia.
+    destruct Cases as [C|[C|[C|[->|[->|[->| ->]]]]]].
+    - left. apply D01. lia.
+    - right. apply U26. exact C.
+    - left. apply D710. exact C.
+    - right. exact U11.
+    - destruct H12 as [(H & _)|H]; [left | right]; exact H.
+    - right. rewrite H13. reflexivity.
+    - exact H14.
+  Qed.
+
+  Theorem valid_IN_explicit : valid_IN c = true <-> Spec_IN c.
+  Proof.
+    unfold Spec_IN. rewrite <- in_format_explicit. split.
+    - intro V. pose proof (in_total c eq_refl V) as T. rewrite in_T_explicit in T.
+      assert (F : in_format c = true) by (unfold valid_IN, nonempty, c in V; apply andb_prop in V; tauto).
+      split; [exact F|]. exists v. split; [|exact T].
+      intros i Hi. apply char36_value. apply in_classes; [apply in_format_explicit; exact F | exact Hi].
+    - intros (F & w & W & T).
+      assert (E : forall i, (i < 15)%nat -> w i = v i) by (intros i Hi; apply (char36_fun _ _ (W i Hi))).
+      rewrite !E in T by lia. fold total in T. rewrite <- in_T_explicit in T.
+      pose proof (in_classes (proj1 in_format_explicit F) 14%nat ltac:(lia)) as K. change (nthb 14 c) with c14 in K.
+      unfold valid_IN, nonempty. change (match c with [] => true | _ => in_format c && in_check c end) with (in_format c && in_check c).
+      rewrite F. cbn [andb]. unfold in_check. change (List.length c) with 15%nat. cbn [Nat.eqb andb].
+      apply byte_eqb_eq. unfold in_T in T. change (nthb 14 c) with c14 in *.
+      pose proof (in_value_range _ K) as R.
+      replace ((36 - in_sum false (firstn 14 c) mod 36) mod 36) with (in_value c14)
+        by (generalize dependent (in_sum false (firstn 14 c)); intros; lia).
+      apply in_char_value. exact K.
+  Qed.
+End IN_explicit.
+
+Lemma in_length c : valid_IN c = true -> c <> [] -> List.length c = 15%nat.
+Proof.
+  unfold valid_IN, nonempty. destruct c; [congruence|]. intros V _. apply andb_prop in V as [V _].
+  apply match_classes_length in V. exact V.
+Qed.
+
+Theorem valid_IN_iff_spec c : valid_IN c = true <-> c = [] \/ Spec_IN c.
+Proof.
+  destruct c as [|x c]; [split; auto|]. split.
+  - intro V. right. pose proof (in_length _ V ltac:(discriminate)) as L.
+    cbn [List.length] in L. injection L as L. explode c L. apply valid_IN_explicit. exact V.
+  - intros [?|S]; [discriminate|]. pose proof (proj1 (proj1 S)) as L.
+    cbn [List.length] in L. injection L as L. explode c L. apply valid_IN_explicit. exact S.
 Qed.
